@@ -351,8 +351,14 @@ pub fn should_use_sparse_threshold(vector: &[f32], threshold: f32) -> bool {
 
 /// Heuristic: does this vector look like an ID list?
 fn looks_like_id_list(vector: &[f32], field_name: &str) -> bool {
+    // The id path casts f32 -> u64 -> f32. Only non-negative integers below 2^64 come
+    // back unchanged (a fraction is cut, a negative value becomes 0, -0.0 loses its
+    // sign, larger values saturate), so only those may take it -- by name or by shape.
+    let exact =
+        |v: f32| v.is_sign_positive() && v.fract() == 0.0 && v < 18_446_744_073_709_551_616.0;
+
     if field_name == "ids" || field_name.ends_with("_ids") {
-        return true;
+        return vector.iter().all(|&v| exact(v));
     }
 
     if vector.len() < 2 {
@@ -360,13 +366,13 @@ fn looks_like_id_list(vector: &[f32], field_name: &str) -> bool {
     }
 
     // Check first value
-    if vector[0] < 0.0 || vector[0].fract() != 0.0 {
+    if !exact(vector[0]) {
         return false;
     }
 
     let mut prev = vector[0];
     for &v in &vector[1..] {
-        if v < prev || v < 0.0 || v.fract() != 0.0 {
+        if v < prev || !exact(v) {
             return false;
         }
         prev = v;
